@@ -49,6 +49,7 @@ Definition shipped_sites : list tag_site := [
   S_ "IFileSet" "redun.file:IFileSet._calc_hash@IFileSet" FStruct "IFileSet";
   S_ "IDir" "redun.file:IDir._calc_hash@IDir" FStruct "IDir";
   S_ "ContentFile" "redun.file:ContentFile._calc_hash@ContentFile" FStruct "ContentFile";
+  S_ "ContentDir" "redun.file:ContentDir._calc_hash@ContentDir" FStruct "ContentDir";
   S_ "ShardedS3Dataset" "redun.file:ShardedS3Dataset._calc_hash" FStruct "ShardedS3Dataset";
   S_ "Handle" "redun.handle:Handle.HandleInfo.get_hash" FStruct "Handle";
   S_ "TaskArguments" "redun.hashing:hash_arguments" FStruct "TaskArguments";
@@ -64,6 +65,30 @@ Definition shipped_sites : list tag_site := [
   S_ "Value.set" "redun.value:Set.get_hash" FTagBytes "Value.set";
   S_ "Value.function" "redun.value:Function._calc_hash" FStruct "Value.function"
 ]%list.
+
+(** Tie with the regenerated site list: every site found in the source is a row of the table,
+    or is a class-resolved site "...@K" (kind = the class K, assigned by the translator from the
+    class whose attribute supplies the tag) whose (kind, form, tag) already occurs in the table.
+    Rows of the table that no longer occur in the source only make the swept set larger. *)
+Fixpoint after_at (s : string) : option string :=
+  match s with
+  | EmptyString => None
+  | String c r => match after_at r with
+                  | Some x => Some x
+                  | None => if Ascii.eqb c "@"%char then Some r else None
+                  end
+  end.
+Definition form_eqb (a b : pre_form) : bool :=
+  match a, b with FStruct, FStruct | FTagBytes, FTagBytes | FUntagged, FUntagged => true | _, _ => false end.
+Definition site_covered (table : list tag_site) (g : string * pre_form * string) : bool :=
+  let '(site, f, t) := g in
+  orb (existsb (fun s => andb (andb (String.eqb (ts_site s) site) (form_eqb (ts_form s) f)) (String.eqb (ts_tag s) t)) table)
+      (match after_at site with
+       | Some k => existsb (fun s => andb (andb (String.eqb (ts_kind s) k) (form_eqb (ts_form s) f)) (String.eqb (ts_tag s) t)) table
+       | None => false
+       end).
+Definition sites_covered (gen : list (string * pre_form * string)) (table : list tag_site) : bool :=
+  forallb (site_covered table) gen.
 
 Definition tagged (s : tag_site) : bool := match ts_form s with FUntagged => false | _ => true end.
 Definition tag_bytes (s : tag_site) : bytes := list_ascii_of_string (ts_tag s).
